@@ -446,7 +446,7 @@ func ruleIsHole(rule string) func(*Ctx) {
 					bad = fmt.Sprintf("IsHole at level %d = %v, want %v", r, outs[0].ret[0].abs.b, g.want)
 				}
 			}
-			c.check(bad == "", rule, fmt.Sprintf("%s:IsHole:%s", rule, strings.Fields(g.name)[0]+strings.Fields(g.name)[1]), f.Pos(), "(PolyPathBase).IsHole",
+			c.check(bad == "", rule, fmt.Sprintf("%s:IsHole:%s", rule, strings.NewReplacer(" ", "", "(", "-", ")", "", ">", "gt").Replace(g.name)), f.Pos(), "(PolyPathBase).IsHole",
 				g.name+" -> "+fmt.Sprint(g.want), bad, "nesting levels alternate filled/hole; IsHole must be true exactly on even non-zero levels")
 		}
 		// Level(): counts parents by following .parent to nil, +1 per step
